@@ -1022,13 +1022,15 @@ def r_hdr_gate(model, rep, tier):
             for g, pol in ev.guards:
                 if T.contains(g, lambda x: x[0] == "attr" and x[2] == "version_tuple"):
                     gate_tests.append((g, pol))
-            node_tests = [n for n in ast.walk(f.node) if isinstance(n, ast.If) and facts.eval_gate_test(n.test, (1, 1)) is not None]
-            if len(gate_tests) != 1 or len(node_tests) != 1:
+            # (evaluated on the condition *terms* of the raise, where named version constants, helper predicates and
+            # properties are already folded - not on the source text of an ``if``)
+            if len(gate_tests) != 1 or facts.gate_term_value(gate_tests[0][0], (1, 1)) is None:
                 ok, msg = False, "the type check is not guarded by exactly one version gate"
             else:
                 for v in facts.version_grid(tier):
                     want = v >= (1, 1)
-                    got = facts.eval_gate_test(node_tests[0].test, v)
+                    got = facts.gate_term_value(gate_tests[0][0], v)
+                    got = got if gate_tests[0][1] else (None if got is None else (not got))
                     if got != want:
                         ok, msg = False, "type check gate differs from '>= (1, 1)' at version %s.%s" % v
                         break
